@@ -12,7 +12,7 @@ from .C12 import ref_partition
 from .C13 import good_pred
 
 MANIFEST = {
-    'text': 'Held on every history executed: seeded histories of up to 12 container operations {compute metric (cycle / augmented mode), add metric (float / int, right and wrong length), compute timings, pick subset with 1-3 conditions over all six comparators and negative / decimal / exponent literals, compute chain timings, compute a user chain metric, matching-cycles query, table export (all / subset / conditions)} are applied in lock-step to Cycles(use_cache=True), Cycles(use_cache=False) and an executable reference container built on the wrap partition; after every step every stored metric must have one entry per cycle and equal the model, subset and chain vectors must equal the model\'s (selected cycles numbered in order, chains = maximal runs), operations the model says must fail (chain metrics before a subset) must raise, and the two real containers must agree with each other. The run is inconclusive unless every operation kind and comparator was exercised often enough.',
+    'text': 'Held on every history executed: seeded histories of up to 12 container operations {compute metric (cycle / augmented mode), add metric (float / int, right and wrong length), compute timings, pick subset with 1-3 conditions over all six comparators and negative / decimal / exponent literals, compute chain timings, compute a user chain metric, matching-cycles query, table export (all / subset / conditions)} are applied in lock-step to Cycles(use_cache=True), Cycles(use_cache=False) and an executable reference container built on the wrap partition; after every step every stored metric must have one entry per cycle and equal the model, subset and chain vectors must equal the model\'s (selected cycles numbered in order, chains = maximal runs), operations the model says must fail (chain metrics before a subset) must raise, and the two real containers must agree with each other. The run is inconclusive unless every operation kind and comparator was exercised often enough. A quarter of the shards run in a session that turns Deprecation/Future/UserWarnings into errors.',
     'note': 'Trusted: numpy, pandas (tables). A selection matching no cycle has no chains: raising or returning an empty subset are both accepted provided the metric store stays coherent and the next selection is exact. Known finding K1 (augmented segment: slice cache vs label lookup use different definitions when the previous cycle is not monotone through 1.5pi / has no trough sample) is recognised by computing both definitions in the model.',
     'technique': 'history exploration with an executable reference model run in lock-step with the real container (cache on and off)',
 }
